@@ -113,7 +113,14 @@ def check_metricframe(case):
 
     has_names = case["sf"]["kind"] in ("dataframe", "dict", "dict_series", "series") or (
         case.get("cf") and case["cf"]["kind"] in ("dataframe", "dict", "dict_series", "series"))
-    A = _mf_results(MetricFrame(**M.build_metricframe_kwargs(case)))
+    mfA = MetricFrame(**M.build_metricframe_kwargs(case))
+    # feature names given through dict keys / DataFrame columns / Series names label the levels, in the given order
+    names = M.effective_feature_names(case)
+    n_sf = len(case["sf"]["cols"])
+    got_names = list(mfA.control_levels or []) + list(mfA.sensitive_levels)
+    if got_names != names[n_sf:] + names[:n_sf] or list(mfA.by_group.index.names) != names[n_sf:] + names[:n_sf]:
+        raise PropertyViolation(f"feature names: control/sensitive levels {got_names}, by_group index names {list(mfA.by_group.index.names)}; given (control first) {names[n_sf:] + names[:n_sf]}")
+    A = _mf_results(mfA)
     B = _mf_results(MetricFrame(**M.build_metricframe_kwargs(_plain(case))))
     for k in A:
         _cmp_maps(A[k], B[k], f"{k}: containers/index labels vs plain ndarrays", 1e-12)
